@@ -325,7 +325,9 @@ def _check_areas(problems: _Problems, areas: list, model: dict, items: list, len
                     and first["neighbouring_end"] <= second["neighbouring_start"]
                     and (not first["product"] or not second["product"] or first["product"] == second["product"]))
         if not fine:
-            problems.add("linked_halves", {**context, "members": members})
+            # each split feature gives exactly two halves with a group of their own: more than two members means
+            # that different features share one group identifier
+            problems.add("linked_halves", {**context, "areas_sharing_the_group": len(members), "members": members})
         drawn.append(members)
     if len(problems.found) > before and any(c == "linked_halves" for c, _ in problems.found[before:]):
         return counts
@@ -514,6 +516,19 @@ def check_layout(spec: dict) -> dict:
                 origin_path = True
             if item.get("sideloaded"):
                 classes.append(f"sideloaded_{item['kind']}")
+        # areas that start out with the same four coordinates (extent and core; extent twice without a core)
+        if mode in ("cross", "whole"):
+            by_coordinates: dict = {}
+            for item in items:
+                if len(item["loc"]["parts"]) != 2:
+                    continue
+                core = item["core"] or item["loc"]
+                key = (item["loc"]["parts"][0][0], core["parts"][0][0], core["parts"][-1][1], item["loc"]["parts"][1][1])
+                by_coordinates.setdefault(key, []).append(item["kind"])
+            for kinds_seen in by_coordinates.values():
+                if len(kinds_seen) > 1:
+                    how = "split" if mode == "whole" else "shift"
+                    classes.append(f"twins_{how}_{'same_kind' if len(set(kinds_seen)) == 1 else 'mixed_kinds'}")
         if region.subregions:
             classes.append("subregions_with_candidates" if region.candidate_clusters else "subregions_only")
             if any(item.get("single") for item in items):
@@ -694,14 +709,45 @@ def layouts(draw):
     count = draw(st.sampled_from([0, 0, 0, 1, 1, 2, 3]))
     if not protoclusters and not count:
         count = 1
+    origin_seen = (-origin) % length if circular else 0     # where the origin lies in the window
     for index in range(count):
         if shape == "whole" and index == 0 and draw(st.integers(0, 2)) > 0:
             s_start, s_end = 0, width
+        elif 0 < origin_seen < width and draw(st.integers(0, 2)) == 0:
+            # a subregion over the origin
+            s_start = point(max(0, origin_seen - 3 * cap), origin_seen - 1)
+            s_end = point(origin_seen + 1, min(width, origin_seen + 3 * cap))
         else:
             s_start = point(0, width - 1)
             s_end = point(s_start + 1, min(width, s_start + max(3, 3 * cap)))
         anchors.update((s_start, s_end))
         subregions.append({"loc": _genome_arc(origin, length, s_start, s_end), "label": f"s{index}",
+                           "sideloaded": draw(st.integers(0, 2)) == 0})
+
+    # twins: a second area with the very same coordinates as an existing one (two rules hitting the same genes with
+    # the same extension, one annotation sideloaded twice, a subregion laid exactly over a protocluster), preferring
+    # areas that cross the origin
+    def pick(pool: list) -> int:
+        crossing = [i for i, area in enumerate(pool) if len(area["loc"]["parts"]) == 2]
+        return draw(st.sampled_from(crossing * 3 + list(range(len(pool)))))
+
+    def copied(loc: dict) -> dict:
+        return {"parts": [list(part) for part in loc["parts"]], "strand": 1}
+
+    eager = 1 if shape == "whole" else 3
+    if protoclusters and draw(st.integers(0, eager)) == 0:
+        index = pick(protoclusters)
+        source = protoclusters[index]
+        protoclusters.append({"core": copied(source["core"]), "loc": copied(source["loc"]),
+                              "product": draw(st.sampled_from(PRODUCTS)), "sideloaded": source["sideloaded"]})
+        unrolled_cores.append(unrolled_cores[index])
+    if subregions and draw(st.integers(0, eager + 1)) == 0:
+        source = subregions[pick(subregions)]
+        subregions.append({"loc": copied(source["loc"]), "label": f"s{len(subregions)}",
+                           "sideloaded": draw(st.integers(0, 2)) == 0})
+    if protoclusters and draw(st.integers(0, eager + 2)) == 0:
+        source = protoclusters[pick(protoclusters)]
+        subregions.append({"loc": copied(source["loc"]), "label": f"s{len(subregions)}",
                            "sideloaded": draw(st.integers(0, 2)) == 0})
 
     genes: list = []
@@ -754,7 +800,7 @@ def layouts(draw):
 REQUIRED_CLASSES = [f"adjust_{branch}_{how}" for branch in BRANCHES for how in ("shift", "split")] + [
     "post_origin_offset", "gene_split", "gene_cross_shift", "gene_post_origin_shift", "region_whole", "region_cross",
     "region_plain", "subregions_only", "subregions_with_candidates", "single_candidate_hidden", "single_candidate_shown",
-    "sideloaded_protocluster", "sideloaded_subregion",
+    "sideloaded_protocluster", "sideloaded_subregion", "twins_split_same_kind", "twins_split_mixed_kinds",
 ]
 
 
